@@ -5,10 +5,10 @@ import random
 from props.common import table_obligations, bounded
 
 LEVEL_TEXT = ("Deductive: Parser.parse against the record invariant of the statement with the grammar parser's result havocked (any value, "
-              "any Exception); from_message closed over the nine codes (lemma); the three error hooks raise and never return; termination "
+              "any Exception); from_message closed over the nine codes (lemma) and total on exception objects of any class / args (text assumed);  the three error hooks raise and never return; termination "
               "obligations: every while-loop and recursion cycle of hotxlfp/** is enumerated from the AST and must carry a variant in a "
               "sidecar contract (table obligation) - a new loop without one is reported.  Bounded: every registered function x arity x typed "
-              "pool, token soups, raising/returning callbacks, under a line budget.")
+              "pool, token soups, raising/returning callbacks, listeners that subscribe / unsubscribe / emit / evaluate during a delivery, exceptions with unhashable or missing args, under a line budget.")
 TRUSTED = ['PLY and re terminate; one builtin call takes bounded time', 'BaseExceptions that are not Exceptions and a host __str__ that raises are outside the contract']
 CONTRACTS = ['from_message', 'from_message_of_exception', 'from_message_closed', 'Parser_throw_error', 't_error', 'p_error', 'Parser_parse', 'GrammarParser_parse',
              'BASE', 'column_index_to_label', 'SUBSTITUTE']
